@@ -7,6 +7,8 @@ from harness.common import run_check, expectation
 from checks.serverfam import *
 from checks.c03 import srv_expect
 from mirsym.models.io import ChanV
+from mirsym.models.util import ok, err
+from mirsym.interp import Infeasible
 from native import oracle
 
 
@@ -178,6 +180,191 @@ def o2_mapping(chk, prog, nservers, nmirrors):
     chk.end(ob)
 
 
+# ------------------------------------------------------------------------------------------------ O3 the mirror task
+@expectation('c20_mirror_task')
+def c20_mirror_task():
+    def f(res):
+        r = res[0]
+        if 'panic' in r or 'error' in r:
+            return ('panic' in r), 'native: %r' % (r,)
+        return (not r.get('whole_requests_only', True), 'native (slow mirror, real MirroredClient task over loopback): %s' % r.get('detail'))
+    return f
+
+
+def o3_mirror_task(chk, prog, nmsgs, fault):
+    """MirroredClient::start's task (the real coroutine, select! and all) fed `nmsgs` requests through its channel, its connection(s) to the
+    mirror scripted: what each mirror connection receives."""
+    name = 'O3-mirror-task-%dmsgs-%s' % (nmsgs, fault)
+    ob = chk.begin(name, 'the task MirroredClient::start spawns (real coroutine: bb8 checkout, select! over exit signal / mirror replies / request channel, '
+                   'Server::send) fed %d requests with symbolic bytes; faults: %s. Every connection to the mirror must carry a concatenation of WHOLE '
+                   'requests, in order, each at most once; a request cut short may only be the last thing ever written on its connection' %
+                   (nmsgs, {'none': 'none', 'write-error': 'any write to the mirror may fail (solver\'s choice)',
+                            'timeout': 'any tokio timeout on the path may elapse after the mirror has taken only part of the bytes (solver\'s choice of where)'}[fault]),
+                   {'requests': nmsgs, 'fault': fault})
+    st_fn = [f for n, f in prog.funcs.items() if re.search(r'mirrors::<impl at [^>]*>::start$', n)]
+    hb = [f for n, f in prog.funcs.items() if n.endswith('::has_broken')]
+    if len(st_fn) != 1 or len(hb) != 1:
+        raise Inconclusive('cannot locate MirroredClient::start / ServerPool::has_broken')
+    ip = chk.interp(prog, name)
+    install_stats_noops(ip)
+    base = list(ip.overrides)
+    from checks.c07 import mk_addr
+    from mirsym.models.io import poll_pending, poll_ready
+
+    def harness(ip_):
+        ip_.overrides[:] = base
+        msgs = []
+        for k in range(nmsgs):
+            body = [ip_.fresh(8, 'm%d_%d' % (k, i)) for i in range(3)]
+            msgs.append([BV(8, ord('Q'))] + wire.be(4 + len(body) + 1, 4) + body + [BV(8, 0)])
+        conns = []              # [{'stream', 'server', 'cell', 'held'}]
+        state = {'next': 0, 'spawned': None, 'gets': 0}
+
+        def new_conn():
+            st = StreamV([], 'mirror%d' % len(conns), fail_writes=(fault == 'write-error'))
+            st.eof_pending = True            # the mirror sends nothing: reads wait
+            srv = mk_server(ip_, prog, st, address=mk_addr(ip_, prog, 0, 1))
+            c_ = {'stream': st, 'server': srv, 'cell': Cell(srv, 'mirror_server%d' % len(conns)), 'held': False, 'discarded': False}
+            conns.append(c_)
+            return c_
+
+        def spawn(c, fut):
+            state['spawned'] = fut
+            return Opaque('JoinHandle', 'task')
+
+        def pool_get(c, p):
+            return Opaque('HookFuture', 'get')
+
+        def recv_bytes(c, p):
+            return Opaque('HookFuture', 'bytes')
+
+        def recv_exit(c, p):
+            return Opaque('HookFuture', 'exit')
+        ip_.overrides[:0] = [
+            (re.compile(r'^tokio::(?:task::)?spawn::<'), spawn),
+            (re.compile(r'MirroredClient::create_pool$'), lambda c, p: Opaque('HookFuture', 'pool')),
+            (re.compile(r'^(?:bb8::)?Pool::<.*>::get$'), pool_get),
+            (re.compile(r'^(?:tokio::sync::mpsc::)?(?:bounded::)?Receiver::<(?:bytes::)?Bytes>::recv$'), recv_bytes),
+            (re.compile(r'^(?:tokio::sync::mpsc::)?(?:bounded::)?Receiver::<\(\)>::recv$'), recv_exit),
+            (re.compile(r'^<(?:bb8::)?PooledConnection<.*> as (?:std::ops::)?(?:Deref|DerefMut)>::(deref|deref_mut)$'), lambda c, g: (deref(c.ip, g) if isinstance(g, Ptr) else g).fields[0]),
+            # tokio::select!: executed as the macro lowers it; the branch polled first is the solver's choice
+            (re.compile(r'^tokio::macros::support::thread_rng_n$'), lambda c, n: BV(32, c.ip.choose(3, 'select_start'))),
+            (re.compile(r'^tokio::future::poll_fn::poll_fn::<'), lambda c, f_: Opaque('PollFn', 'pollfn', f_)),
+            (re.compile(r'^<tokio::future::poll_fn::PollFn<.*> as (?:futures::|std::future::)?Future>::poll$'),
+             lambda c, pin, cx: c.ip.call_value(c.ip.load(pin.fields[0].cell, pin.fields[0].path).data, [cx])),
+            (re.compile(r'CachedResolver::enabled$'), lambda c, *a: BV(1, 0)),
+            (re.compile(r'^(?:arc_swap::)?ArcSwapAny::<.*>::load$'), lambda c, *a: Opaque('Guard', 'resolver')),
+            (re.compile(r'^<(?:arc_swap::)?Guard<.*> as (?:std::ops::)?Deref>::deref$'), lambda c, *a: Ptr(Cell(Ptr(Cell(Opaque('CachedResolver', 'r'), 'r')), 'g'))),
+        ]
+        ip_.lazy_hook = lambda ip3, p, c: Ptr(Cell(Opaque('ArcSwap', 'CACHED_RESOLVER'), 'lazy'))
+
+        def poll_hook(ip2, co, ptr):
+            if not (isinstance(co, Opaque) and co.ty == 'HookFuture'):
+                raise Inconclusive('poll of %r' % (co,))
+            if co.tag == 'pool':
+                return poll_ready(ip2, Opaque('Bb8Pool', 'mirror_pool'))
+            if co.tag == 'get':
+                state['gets'] += 1
+                if state['gets'] > nmsgs + 3:
+                    raise Infeasible('mirror task keeps looping')          # (bounded exploration: the channel is closed by then)
+                cur = [x for x in conns if not x['discarded']]
+                c_ = cur[0] if cur else new_conn()
+                c_['held'] = True
+                return poll_ready(ip2, ok(ip2, Agg([Ptr(c_['cell'], ())], 'PooledConnection')))
+            if co.tag == 'exit':
+                return poll_pending(ip2)
+            if co.tag == 'bytes':
+                k = state['next']
+                state['next'] += 1
+                if k < nmsgs:
+                    return poll_ready(ip2, some(ip2, Seq(list(msgs[k]), 'bytes')))
+                return poll_ready(ip2, none(ip2))
+            raise Inconclusive('poll of hook future ' + co.tag)
+        ip_.poll_hook = poll_hook
+
+        def drop_hook(ip2, frame, place):
+            ty = ip2.place_type(frame, place) or ''
+            if 'PooledConnection<' in ty and not ty.startswith('&') and not ty.startswith('*'):
+                try:
+                    v = ip2.read_place(frame, place)
+                except Inconclusive:
+                    return
+                if isinstance(v, Agg) and v.ty == 'PooledConnection':
+                    for c_ in conns:
+                        if c_['cell'] is v.fields[0].cell and c_['held']:
+                            c_['held'] = False
+                            broken = flag_val(ip2, ip2.call_function(hb[0], [Ptr(Cell(Opaque('ServerPool', 'mgr'), 'mgr')), Ptr(c_['cell'], ())]))
+                            c_['discarded'] = bool(broken)
+        ip_.drop_hook = drop_hook
+        if fault == 'timeout':
+            def partial(ip2, dur, fut):
+                # the deadline passes while the mirror has taken only the first k bytes of what is being written (k: solver's choice)
+                k = [0, 2, 5][ip2.choose(3, 'mirror_took')]
+                for c_ in conns:
+                    c_['stream'].stall_after = k
+                try:
+                    r = ip2.poll(Ptr(Cell(fut, 'timed_future'), ()))
+                finally:
+                    for c_ in conns:
+                        c_['stream'].stall_after = None
+                return r
+            ip_.env['elapsed_after_partial_progress'] = partial
+        else:
+            ip_.env['no_timeouts'] = True
+        names = prog.src.structs['MirroredClient']
+        vals = {'address': mk_addr(ip_, prog, 0, 1), 'user': Opaque('User', 'u'), 'database': rstring('db'),
+                'bytes_rx': Opaque('Receiver', 'bytes_rx'), 'disconnect_rx': Opaque('Receiver', 'exit_rx')}
+        mc = Agg([vals[n] for n in names], 'MirroredClient', list(names))
+        try:
+            ip_.call_function(st_fn[0], [mc])
+            if state['spawned'] is None:
+                raise Inconclusive('MirroredClient::start did not spawn a task')
+            ip_.drive(state['spawned'], max_polls=16 * (nmsgs + 2))
+        except Panic as p:
+            raise Inconclusive('mirror task panic: ' + p.msg)
+        ob.nontrivial += 1
+        # ---- reference: every connection carries whole requests, in order, at most once; a cut request only as a connection's last bytes
+        nxt = 0
+        problems = []
+        for ci, c_ in enumerate(conns):
+            out = c_['stream'].out
+            pos = 0
+            while pos < len(out):
+                hit = None
+                for k in range(nxt, nmsgs):
+                    m_ = msgs[k]
+                    if out[pos:pos + len(m_)] and len(out) - pos >= len(m_) and ip_.model_for(z3.Not(z3.And(*[a.z() == b.z() for a, b in zip(out[pos:pos + len(m_)], m_)]))) is None:
+                        hit = k
+                        break
+                if hit is None:
+                    rest = out[pos:]
+                    whole_later = any(len(rest) < len(msgs[k]) and ip_.model_for(z3.Not(z3.And(*[a.z() == b.z() for a, b in zip(rest, msgs[k])]))) is None for k in range(nxt, nmsgs))
+                    if whole_later:
+                        # a request cut short: fine only if nothing follows it on this connection (we are at the end of `out` by construction)
+                        break
+                    problems.append('connection %d carries bytes that are not a whole request of the client at offset %d' % (ci, pos))
+                    break
+                nxt = hit + 1
+                pos += len(msgs[hit])
+            # a cut request followed by more bytes shows up above as "not a whole request" at the position of the cut
+        # explicit: partial prefix followed by a later request on the same connection
+        for ci, c_ in enumerate(conns):
+            out = c_['stream'].out
+            calls = c_['stream'].write_calls
+            if any(getattr(w, 'partial', False) for w in calls[:-1]):
+                problems.append('connection %d: a request was cut short and the connection was used again afterwards' % ci)
+        for what in problems[:1]:
+            m = ip_.model_for()
+            chk.report(ob, 'C20/O3/mirror-stream', 'the mirror task sends a mirror something that is not a sequence of whole requests: %s (streams: %s)' %
+                       (what, [bytes(m.eval(b.z(), True).as_long() for b in c_['stream'].out).hex() for c_ in conns]), {},
+                       {'commands': [{'op': 'mirror_task_slow'}], 'expect': ['c20_mirror_task']})
+        if len(ob.samples) < 2:
+            ob.samples.append({'connections': len(conns), 'bytes_per_connection': [len(c_['stream'].out) for c_ in conns]})
+    ip.explore(harness, max_paths=4000)
+    chk.absorb(ob, ip)
+    chk.end(ob)
+
+
 def _dispatch(chk, f, args):
     f(chk, *args)
 
@@ -201,6 +388,8 @@ def main(chk):
             tasks.append((o1_send, (prog, nm, nb)))
     for ns, nm in ((1, 1), (2, 1), (2, 2)) + (((3, 2),) if chk.thorough else ()):
         tasks.append((o2_mapping, (prog, ns, nm)))
+    for nmsg, fault in ((2, 'none'), (2, 'write-error'), (2, 'timeout')) + (((3, 'write-error'), (3, 'timeout')) if chk.thorough else ()):
+        tasks.append((o3_mirror_task, (prog, nmsg, fault)))
     chk.parallel(_dispatch, tasks)
 
 
